@@ -9,7 +9,10 @@ SRC_FACTS = ["crypt_fn_secret", "crypt_key_ciphertext", "crypt_new_key", "ast_fn
              "envelope_magic", "envelope_version", "envelope_min_len"]
 COQ_SAMPLE = 40
 BATCH = 200
-RULE = ("regression corpus ($$ / $${x} / ${x} texts, interpolated inner key, non-secret shapes); exhaustive small "
+RULE = ("regression corpus ($$ / $${x} / ${x} texts, interpolated inner key, non-secret shapes); spelling family: "
+        "every spelling of the key fn::secret (plain, single, double, \\x / \\u / fully escaped double-quoted, !!str "
+        "tagged) x every spelling of the text scalar (the same plus literal, folded) and of the key ciphertext x block / "
+        "flow / flow-in-provider-input, one secret per document (no raw bytes `fn::secret` when escaped); exhaustive small "
         "family: every secret text (48) x scalar style (6) x position (top level, nested object, array, provider input, "
         "flow) with toy ciphers of prefix length 0,1,2,3,5,17,36 (ciphertext lengths 0..40, including 0-3 bytes from "
         "texts of 0-3 bytes with no prefix); ciphertext-length family 0..40 exactly; random documents mixing plaintext "
@@ -77,6 +80,11 @@ def gen(rng, tier):
                     return G.Map([{"key": G.Sc("fn::secret", "plain"), "val": G.Sc(t, st, line=None if in_flow else "lc"),
                                    "head": None if in_flow else "hc"}], flow=in_flow)
                 add(G.to_text(doc_with(plain, pos, rng)), key, pad, "family")
+
+    # alternative spellings of the keys `fn::secret` / `ciphertext` and of the text scalar (escapes, quotes, tags,
+    # block and flow): same decoded key = same secret, whatever bytes the text contains
+    for j, (form, text) in enumerate(G.spelled_documents(0x6B, 1, thorough)):
+        add(text, 0x6B, 1, "spelling-" + form)
 
     # ciphertext lengths 0..40 exactly
     for n in range(0, 41):
